@@ -21,7 +21,7 @@ import traceback
 
 VERIF = os.path.dirname(os.path.dirname(os.path.abspath(__file__)))
 REPO = os.environ.get("VERIF_REPO", "/repo")
-COQDIR = os.path.join(VERIF, "coq")
+COQDIR = os.environ.get("VERIF_COQDIR", os.path.join(VERIF, "coq"))   # a scratch copy can be used while developing proofs
 BUILD = os.path.join(VERIF, "build")
 ONE = 8000  # model units per 1.0 of the library
 SHARD = 400
@@ -90,7 +90,9 @@ def to_units(x):
     if v != v or v in (float("inf"), float("-inf")):
         return None
     r = round(v)
-    if abs(v - r) > 0:
+    # exact on dyadic penalties; a non-dyadic grid value (3999/8000 ...) and the float sums built from it are within
+    # a few ulps of the grid point: 1e-7 unit = 1.25e-11, far below the 1e-6 of the properties
+    if abs(v - r) > 1e-7:
         return None
     return int(r)
 
